@@ -372,7 +372,7 @@ func (s *Sim) signPrivileged(tx *types.Transaction, mode, who int64) *types.Tran
 	if mode < 0 {
 		mode = -mode
 	}
-	switch mode % 6 {
+	switch mode % 7 {
 	case 0:
 		cur, _, err := s.ConsensusPeers(s.Prod())
 		if err != nil || len(cur) == 0 {
@@ -393,8 +393,38 @@ func (s *Sim) signPrivileged(tx *types.Transaction, mode, who int64) *types.Tran
 		return chain.SignTx(tx, s.Peer(who))
 	case 4:
 		return chain.SignTx(tx, s.User(who))
+	case 5:
+		// the multi-address over every ACTIVE pool member (consensus members plus approved
+		// candidates not yet promoted): it is the operator only when there is no such candidate
+		cur, err := s.ActivePeers(s.Prod())
+		if err != nil || len(cur) == 0 {
+			return chain.Rewire(tx)
+		}
+		return chain.OperatorSign(tx, cur)
 	}
 	return chain.Rewire(tx)
+}
+
+// ActivePeers: accounts of the pool members with consensus or candidate status, sorted by key.
+func (s *Sim) ActivePeers(n *chain.Node) ([]*account.Account, error) {
+	pm, _, err := PeerPool(n)
+	if err != nil {
+		return nil, err
+	}
+	var ids []string
+	for k, v := range pm.PeerPoolMap {
+		if v.Status == node_manager.ConsensusStatus || v.Status == node_manager.CandidateStatus {
+			ids = append(ids, k)
+		}
+	}
+	sort.Strings(ids)
+	var out []*account.Account
+	for _, id := range ids {
+		if a := s.W.ByPub(id); a != nil {
+			out = append(out, a)
+		}
+	}
+	return out, nil
 }
 
 // Submit builds the step's transaction and queues it for the next block.
